@@ -1114,7 +1114,7 @@ def stage_C(ctx: Any) -> None:
         ctx.add("evaluations", len(exprs))
         ctx.cov["self_correspondence_cases"] = len(exprs)
     # ---- (2) driven Errors vs model
-    n = ctx.n(800, 4000)
+    n = ctx.n(800, 2500)
     cases = [gen_case(rng, codes_mod, E.original_error_codes) for _ in range(n)]
     exprs = []
     impls = []
@@ -1172,7 +1172,7 @@ def stage_C_watch_render(ctx: Any, rng: Any, E: Any, codes_mod: Any, Options: An
     import json as _json
     exprs: list[str] = []
     metas: list[Any] = []
-    n = ctx.n(500, 3000)
+    n = ctx.n(500, 2000)
     wfeat = {"note_filtered_by_watcher": 0, "info_filtered": 0, "has_new_errors": 0}
     for _ in range(n):
         case = gen_case(rng, codes_mod, E.original_error_codes)
@@ -1382,7 +1382,7 @@ def stage_S(ctx: Any, verdict: str, wverdict: str = "reentry") -> None:
     ctx.cov["corpus_programs"] = len(jobs)
     rng.shuffle(jobs)
     pinned = [j for j in jobs if j["name"] in PINNED]           # past findings: always in the sample
-    jobs = pinned + [j for j in jobs if j["name"] not in PINNED][: int(os.environ.get("VERIF_C13_PROGRAMS", ctx.n(260, 2200)))]
+    jobs = pinned + [j for j in jobs if j["name"] not in PINNED][: int(os.environ.get("VERIF_C13_PROGRAMS", ctx.n(260, 1800)))]
     for k, j in enumerate(jobs):
         j["seed"] = f"{ctx.seed}/{j['name']}"
         j["max_variants"] = ctx.n(6, 12)
